@@ -55,7 +55,7 @@ def _p(pid, rules, decided, declined, explanation, level='other', floors=None, a
                       floors=floors or {}, assumptions=list(assumptions) + COMMON_ASSUMPTIONS, exhaustive=exhaustive)
 
 
-_p('C18', ['H1', 'H3', 'E10'],
+_p('C18', ['H1', 'H3', 'E10', 'H4'],
    decided=["every struct-style code and endianness prefix maps to the dtype struct defines (regex classes = "
             "replacement tables = size table = struct.calcsize; prefix branches exhaustive)",
             "native-endian aliases point at the le/be dtype in the matching sys.byteorder branch (both branches, "
@@ -197,7 +197,7 @@ _p('C10', ['D2', 'E9', 'J1'],
    explanation="Exception-translation and guard-dominance checks over the four setters, four getters, the decoders and the "
                "reader closures of DtypeDefinition.")
 
-_p('C13', ['HASH', 'J1', 'J2', 'D3', 'L'],
+_p('C13', ['HASH', 'J1', 'J2', 'D3', 'L', 'G3'],
    decided=["BitArray and BitStream are unhashable, Bits and ConstBitStream hash (MRO resolution incl. Python's implicit "
             "__hash__ = None); ordering operators return NotImplemented",
             "== / != / hash have one implementation each for all classes and reach no read of _pos or _filename, so they "
@@ -246,7 +246,7 @@ _p('C14', ['I', 'B3', 'B2', 'N2a', 'A9'],
    explanation="Dimension (unit) analysis over array_.py, atomicity path rule for in-place helpers, guard check on the "
                "only writer of Array._dtype.")
 
-_p('C20', ['M', 'D1', 'N1', 'N2', 'N2a', 'N3', 'N4', 'A5', 'B1', 'POSW', 'E7', 'H1'],
+_p('C20', ['M', 'D1', 'N1', 'N2', 'N2a', 'N3', 'N4', 'A5', 'B1', 'POSW', 'E7', 'E8', 'H1'],
    decided=["never an internal error class: AttributeError (every self.<attr> of every method resolves in every concrete "
             "class), AssertionError (29 asserts: facts at public call sites or reviewed reason), ZeroDivisionError "
             "(all divisions), KeyError (struct-code regexes cover the table lookups), NameError (all globals "
